@@ -299,6 +299,7 @@ struct drv {
     size_t outlen;
     long sink_err_at;
     int sink_err;
+    bool sink_err_hit, src_err_hit;
     bool overrun; /* budget exceeded somewhere */
 };
 
@@ -346,8 +347,10 @@ drv_src_octet(void *driver, void *out)
         d->overrun = true;
         return -EIO;
     }
-    if (d->src_err_at >= 0 && (long)d->inpos == d->src_err_at)
+    if (d->src_err_at >= 0 && (long)d->inpos == d->src_err_at) {
+        d->src_err_hit = true;
         return d->src_err;
+    }
     if (d->inpos >= d->inlen)
         return -ENODATA;
     *(unsigned char *)out = d->in[d->inpos++];
@@ -365,8 +368,10 @@ drv_src_chunk(void *driver, void *out, size_t n)
     if (d->src_err_at >= 0 && (long)d->inpos <= d->src_err_at && d->src_err_at < (long)(d->inpos + n)) {
         /* deliver up to the failing octet first */
         const size_t k = (size_t)d->src_err_at - d->inpos;
-        if (k == 0)
+        if (k == 0) {
+            d->src_err_hit = true;
             return d->src_err;
+        }
         memcpy(out, d->in + d->inpos, k);
         d->inpos += k;
         return (ssize_t)k;
@@ -387,8 +392,10 @@ drv_sink_chunk(void *driver, const void *data, size_t n)
     struct drv *d = driver;
     if (d->sink_err_at >= 0 && d->outlen <= (size_t)d->sink_err_at && (size_t)d->sink_err_at < d->outlen + n) {
         const size_t k = (size_t)d->sink_err_at - d->outlen;
-        if (k == 0)
+        if (k == 0) {
+            d->sink_err_hit = true;
             return d->sink_err;
+        }
         memcpy(d->out + d->outlen, data, k);
         d->outlen += k;
         return (ssize_t)k;
